@@ -65,7 +65,9 @@ impl Ty {
 pub const TYPES: &[Ty] = &[
     Ty { tag: "F8x1", kind: Kind::F, w: 8, n: 1 },
     Ty { tag: "F8x3", kind: Kind::F, w: 8, n: 3 },
+    Ty { tag: "F8x17", kind: Kind::F, w: 8, n: 17 },
     Ty { tag: "F16x2", kind: Kind::F, w: 16, n: 2 },
+    Ty { tag: "F16x5", kind: Kind::F, w: 16, n: 5 },
     Ty { tag: "F32x1", kind: Kind::F, w: 32, n: 1 },
     Ty { tag: "F32x3", kind: Kind::F, w: 32, n: 3 },
     Ty { tag: "F64x1", kind: Kind::F, w: 64, n: 1 },
@@ -233,7 +235,7 @@ macro_rules! impl_sub_bvf {
         }
     )+}
 }
-impl_sub_bvf!("F8x1": u8, 1; "F8x3": u8, 3; "F16x2": u16, 2; "F32x1": u32, 1; "F32x3": u32, 3;
+impl_sub_bvf!("F8x1": u8, 1; "F8x3": u8, 3; "F8x17": u8, 17; "F16x2": u16, 2; "F16x5": u16, 5; "F32x1": u32, 1; "F32x3": u32, 3;
     "F64x1": u64, 1; "F64x2": u64, 2; "F64x3": u64, 3; "F128x1": u128, 1; "F128x2": u128, 2;
     "FU64x2": usize, 2);
 
@@ -296,7 +298,7 @@ pub fn tok_len(tok: &str) -> usize {
 #[macro_export]
 macro_rules! for_types {
     ($cb:ident ! ( $($pre:tt)* )) => {
-        $cb!($($pre)* ; "F8x1": bva::Bvf<u8,1>, "F8x3": bva::Bvf<u8,3>, "F16x2": bva::Bvf<u16,2>,
+        $cb!($($pre)* ; "F8x1": bva::Bvf<u8,1>, "F8x3": bva::Bvf<u8,3>, "F8x17": bva::Bvf<u8,17>, "F16x2": bva::Bvf<u16,2>, "F16x5": bva::Bvf<u16,5>,
             "F32x1": bva::Bvf<u32,1>, "F32x3": bva::Bvf<u32,3>, "F64x1": bva::Bvf<u64,1>,
             "F64x2": bva::Bvf<u64,2>, "F64x3": bva::Bvf<u64,3>, "F128x1": bva::Bvf<u128,1>,
             "F128x2": bva::Bvf<u128,2>, "FU64x2": bva::Bvf<usize,2>, "D": bva::Bvd, "A": bva::Bv)
